@@ -9,7 +9,7 @@ func checkC05(c *Ctx) {
 	r := c.R
 	r.Explanation = "Decides structural necessary conditions of C05 on package cron, on every path. " +
 		"HOW CONSTRUCTS ARE FOUND: by role, anchored on the exported API (Cron, Entry and its exported fields, Job, Schedule, Start/Run/Stop/Schedule/Remove/Entries) — Cron's unexported fields by type or method set, searched through its own sub-structs held by value, pointer or embedding (the []*Entry list, the bool running flag, the mutex, the Add/Done/Wait job counter, the four request channels by element type, the *time.Location, the ID counter as the field of Entry.ID's type whose value reaches Entry.ID; today's names only break ties); the scheduler loop as the function whose blocking select receives from the stop channel; the scheduler role as the activations that run that loop through calls and are spawned with go or called from an exported method; helpers by what they do. " +
-		"HOW FACTS ARE ESTABLISHED: an interprocedural powerset dataflow over the package's functions (callee summaries per entry state and per callback binding, entry states from call sites, go statements handing the scheduler role over), path-sensitive on up to three tracked booleans per function (a tested flag, a bool helper's result or one component/enum constant of a result tuple, flag variables, nil tests) plus one captured boolean through which a callback reports to its caller; calls are followed through static callees, closures with or without captured variables, closure parameters of callback helpers such as locked(func(){...}), method values in locals or unexported func-typed fields, elements of literal tables of steps, single-implementation unexported interfaces, and callbacks of sort/slices; values are followed through parameters, helper results, named results, temporaries and fields of local structs; a variable is treated as a location (SSA web, local cell, field of a local struct) whose assignments are observed; the mutex state is part of the flow. " +
+		"HOW FACTS ARE ESTABLISHED: an interprocedural powerset dataflow over the package's functions (callee summaries per entry state and per callback binding, entry states from call sites, go statements handing the scheduler role over), path-sensitive on up to five tracked facts per function (a tested flag, a bool helper's result or one component/enum constant of a result tuple, flag variables, enum-like variables fed by constants and helper results and compared with constants, nil tests) plus one captured boolean through which a callback reports to its caller; a branch that depends on a helper result and is not interpreted makes the verdicts that needed it UNDECIDED; calls are followed through static callees, closures with or without captured variables, closure parameters of callback helpers such as locked(func(){...}), method values in locals or unexported func-typed fields, elements of literal tables of steps, single-implementation unexported interfaces, and callbacks of sort/slices; values are followed through parameters, helper results, named results, temporaries and fields of local structs; a variable is treated as a location (SSA web, local cell, field of a local struct) whose assignments are observed; the mutex state is part of the flow. " +
 		"WHAT IS DECIDED (runningMu/running/entries/jobWaiter/add/remove/snapshot/stop denote the roles): " +
 		"(S1-ownership) entries and the Next/Prev of its elements are touched only by an activation holding the scheduler role or with the mutex held after running was read false in that critical section; (S1-single-scheduler) from every exported entry point the loop is entered only after running was read false and set true in one critical section. " +
 		"(S2-routing) every send on a request channel happens with the mutex held on the running==true branch, never by the scheduler itself; (S2-twin) every return of the exported method that can forward a removal / a new entry has forwarded it or applied it to entries itself (a search that came back empty counts as applied); (S2-stop-clears-running) every return after the stop request has stored running=false under the mutex. " +
